@@ -39,21 +39,48 @@ pub fn gen_executed_request(
         1 => (
             refapp::FUNC_WRITE,
             vec![ReqHeader {
+                // absolute time (g50v1) or, after RECORD_CURRENT_TIME, the LAN procedure's g50v3
                 group: 50,
-                var: 1,
-                range: Range::Count8(1),
+                var: if rng.chance(1, 4) { 3 } else { 1 },
+                range: if rng.chance(1, 4) {
+                    Range::Count16(1)
+                } else {
+                    Range::Count8(1)
+                },
                 data: refapp::u48(1_700_000_000_000 + rng.below(1000)).to_vec(),
             }],
         ),
-        2 => (
-            refapp::FUNC_WRITE,
+        2 => (refapp::FUNC_WRITE, {
+            // analog dead-bands: g34v1 (u16) / v2 (u32) / v3 (f32), one- or two-octet count and index, 1..3 objects
+            let var = rng.range(1, 3) as u8;
+            let wide = rng.chance(1, 3);
+            let n = rng.urange(1, 3);
+            let mut data = Vec::new();
+            for _ in 0..n {
+                let index = rng.below(4) as u16;
+                if wide {
+                    data.extend_from_slice(&index.to_le_bytes());
+                } else {
+                    data.push(index as u8);
+                }
+                let v = rng.below(50) as u32;
+                match var {
+                    1 => data.extend_from_slice(&(v as u16).to_le_bytes()),
+                    2 => data.extend_from_slice(&v.to_le_bytes()),
+                    _ => data.extend_from_slice(&(v as f32).to_le_bytes()),
+                }
+            }
             vec![ReqHeader {
                 group: 34,
-                var: 1,
-                range: Range::Prefix8(1),
-                data: vec![rng.below(4) as u8, 5, 0],
-            }],
-        ),
+                var,
+                range: if wide {
+                    Range::Prefix16(n as u16)
+                } else {
+                    Range::Prefix8(n as u8)
+                },
+                data,
+            }]
+        }),
         3 => (refapp::FUNC_SELECT, gen_controls(rng)),
         4 => (refapp::FUNC_OPERATE, gen_controls(rng)),
         5 | 6 => (refapp::FUNC_DIRECT_OPERATE, gen_controls(rng)),
@@ -65,7 +92,21 @@ pub fn gen_executed_request(
                 refapp::FUNC_FREEZE_CLEAR,
                 refapp::FUNC_FREEZE_CLEAR_NR,
             ]),
-            vec![ReqHeader::all(20, 0)],
+            vec![match rng.below(4) {
+                0 => ReqHeader {
+                    group: 20,
+                    var: 0,
+                    range: Range::Range8(rng.below(3) as u8, 2 + rng.below(3) as u8),
+                    data: vec![],
+                },
+                1 => ReqHeader {
+                    group: 20,
+                    var: 0,
+                    range: Range::Range16(rng.below(3) as u16, 2 + rng.below(300) as u16),
+                    data: vec![],
+                },
+                _ => ReqHeader::all(20, 0),
+            }],
         ),
         9 => (
             *rng.pick(&[refapp::FUNC_FREEZE_AT_TIME, refapp::FUNC_FREEZE_AT_TIME_NR]),
@@ -178,6 +219,7 @@ impl Scenario for RepeatScenario {
                     class: 2,
                     svar: 5,
                     evar: 1,
+                    deadband: 0,
                 });
             }
         }
